@@ -63,7 +63,7 @@ type witness struct {
 }
 
 func run(r *ev.Run, cfg props.Cfg) {
-	runAll(r, cfg, cfg.Pick(1500, 20000), "main", cfg.Workers)
+	runAll(r, cfg, cfg.Pick(1500, 120000), "main", cfg.Workers)
 	sink.RaceSlice(r, cfg, "C04", cfg.Workers, nil)
 	r.Assume("the adversary runs no watcher of its own (its honest software would refute its own registration) and otherwise behaves honestly, including settlement")
 	r.Assume("'before the challenge period ends' is decided on the ledger's logical clock: the verdict is taken when the ledger is idle after the adversary's registration (all events consumed, no call in flight), before the clock is advanced")
@@ -73,7 +73,7 @@ func childMain(cfg props.Cfg) int {
 	em := childrun.NewEmitter()
 	var w, W int
 	fmt.Sscanf(strings.TrimPrefix(cfg.Child, "race:"), "%d/%d", &w, &W)
-	n := cfg.Pick(250, 4000) / W
+	n := cfg.Pick(250, 12000) / W
 	if n < 1 {
 		n = 1
 	}
